@@ -494,13 +494,19 @@ class PseudoNetCDFFile(PseudoNetCDFSelfReg, object):
         # Convert file's time to numpy datetime at resolution
         xp = mytimes.astype(tu).astype('d')
 
+        # np.interp needs increasing abscissae: a time axis that runs
+        # backwards is searched in reverse
+        if xp.size > 1 and xp[0] > xp[-1]:
+            xp = xp[::-1]
+            idx = idx[::-1]
+
         # Use interpolation methods with no bounding for nearest
         # and bounds_close
         if ttype in ('nearest', 'bounds_close'):
             out = np.interp(x, xp, idx)
             if index:
                 imin = 0
-                imax = idx[-1] + (0 if ttype == 'nearest' else -1)
+                imax = idx.max() + (0 if ttype == 'nearest' else -1)
                 out = np.minimum(np.maximum(out, imin), imax)
                 if ttype == 'nearest':
                     out = np.round(out, 0).astype('i')
